@@ -124,8 +124,8 @@ Proof.
   apply set_checkpoint_ceq. rewrite LB, Ei, length_set_checkpoint. reflexivity.
 Qed.
 
-(* non-vacuity: a use site that rebinds K and a body that declares a new name *)
-Example hygiene_example :
+(* the merging pop used before b8843bb: a use site that rebinds K and a body that declares a new name *)
+Example hygiene_example_merging_pop :
   let def := [sset (sset sempty 1 10) 2 5] in              (* at definition: K(1) -> 10, G(2) -> 5 *)
   let use := mkSS [sset (sset (sset sempty 1 10) 2 5) 1 20] [] in   (* use site: K rebound to 20 *)
   match hygienic_call true use def (declare_all [(3, 99)]) with
@@ -133,6 +133,18 @@ Example hygiene_example :
     lookup_chain inside sempty 1 = Some 10 /\           (* the body sees the definition-time K *)
     lookup_chain (cur s3) sempty 1 = Some 20 /\         (* the use site keeps its K *)
     lookup_chain (cur s3) sempty 3 = Some 99            (* the body's name leaked *)
+  | None => False
+  end.
+Proof. vm_compute. auto. Qed.
+
+(* non-vacuity of the current obligation (restoring pop): same situation, the body's name does not survive *)
+Example hygiene_example_restoring_pop :
+  let def := [sset (sset sempty 1 10) 2 5] in
+  let use := mkSS [sset (sset (sset sempty 1 10) 2 5) 1 20] [] in
+  match hygienic_call false use def (declare_all [(3, 99)]) with
+  | Some (inside, s3) =>
+    lookup_chain inside sempty 1 = Some 10 /\ lookup_chain inside sempty 3 = None /\
+    lookup_chain (cur s3) sempty 1 = Some 20 /\ lookup_chain (cur s3) sempty 3 = None
   | None => False
   end.
 Proof. vm_compute. auto. Qed.
